@@ -15,13 +15,15 @@ import (
 	"sort"
 	"strings"
 
+	cmtabci "github.com/cometbft/cometbft/abci/types"
+
 	"github.com/oasisprotocol/oasis-core/go/common/cbor"
 	"github.com/oasisprotocol/oasis-core/go/common/crypto/hash"
 	"github.com/oasisprotocol/oasis-core/go/common/logging"
 	"github.com/oasisprotocol/oasis-core/go/consensus/api/transaction"
 	beaconState "github.com/oasisprotocol/oasis-core/go/consensus/cometbft/apps/beacon/state"
-	"github.com/oasisprotocol/oasis-core/go/storage/mkvs"
 	staking "github.com/oasisprotocol/oasis-core/go/staking/api"
+	"github.com/oasisprotocol/oasis-core/go/storage/mkvs"
 )
 
 func init() {
@@ -45,11 +47,14 @@ type cnDriver struct {
 	rejects  int
 	paths    map[string]int
 	txKinds  map[string]int
-	sched    [][]string // optional per-height path assignment (from TLC)
-	nodeRts  map[string]string            // runtimes each node is currently registered for
-	pendRts  map[*cnTxSpec]string         // proposed runtime lists of not yet executed registrations
-	rtOwner  map[string]string            // registered runtimes -> owning entity
+	sched    [][]string           // optional per-height path assignment (from TLC)
+	nodeRts  map[string]string    // runtimes each node is currently registered for
+	pendRts  map[*cnTxSpec]string // proposed runtime lists of not yet executed registrations
+	rtOwner  map[string]string    // registered runtimes -> owning entity
 	epoch    int64
+	lastRh   []*rhView // round state of the runtimes at the end of the previous block
+	noRounds bool      // do not submit executor commitments
+	maxGroup int       // largest primary committee size requested by runtime registrations
 }
 
 func (d *cnDriver) emit(m map[string]any) {
@@ -105,6 +110,16 @@ func dropNulls(v any) any {
 }
 
 // nodeActive reports whether the last recorded registry state has the node registered and unexpired at the epoch.
+// runtimeNames lists the runtimes registered so far in the scenario, sorted.
+func (d *cnDriver) runtimeNames() []string {
+	var names []string
+	for r := range d.rtOwner {
+		names = append(names, r)
+	}
+	sort.Strings(names)
+	return names
+}
+
 func (d *cnDriver) nodeActive(name string, epoch int64) bool {
 	nodes, _ := d.lastReg["nodes"].([]map[string]any)
 	for _, nd := range nodes {
@@ -391,7 +406,7 @@ func (d *cnDriver) step() error {
 			}
 		}
 		sp := &cnTxSpec{Kind: "regruntime", Signer: e, To: r, Gov: []string{"entity", "entity", "runtime"}[d.rng.Intn(3)],
-			Shape: fmt.Sprintf("g%db%dm%dp%dv%d", 1+d.rng.Intn(2), d.rng.Intn(3), d.rng.Intn(3), d.rng.Intn(2), btoi(d.rng.Intn(4) == 0)), Nonce: uint64(d.acctField(e, "n")) + nonceBump[e], Gas: 5000, Validity: validity}
+			Shape: fmt.Sprintf("g%db%dm%dp%dv%ds%d", 1+d.rng.Intn(d.maxGroup), d.rng.Intn(3), d.rng.Intn(3), d.rng.Intn(2), btoi(d.rng.Intn(4) == 0), d.rng.Intn(2)), Nonce: uint64(d.acctField(e, "n")) + nonceBump[e], Gas: 5000, Validity: validity}
 		if raw, err := n.buildTx(sp, d.rng); err == nil {
 			nonceBump[e]++
 			metas = append(metas, cnTxMeta{sp, raw})
@@ -433,6 +448,9 @@ func (d *cnDriver) step() error {
 	if len(d.sent) > 0 && d.rng.Intn(6) == 0 {
 		raw := d.sent[d.rng.Intn(len(d.sent))]
 		metas = append(metas, cnTxMeta{&cnTxSpec{Kind: "replayed", Validity: "replay"}, raw})
+	}
+	if !d.noRounds {
+		metas = append(metas, d.genCommits(nonceBump)...)
 	}
 	if d.rng.Intn(4) == 0 {
 		// forgeries: an authentic signature under another body.  Source: a transaction this block carries (its signature is
@@ -623,6 +641,8 @@ func (d *cnDriver) observe(b *cnBlock, metas []cnTxMeta) cnBlockResult {
 		if err != nil {
 			panic(err)
 		}
+		rtNames := d.runtimeNames()
+		d.emit(map[string]any{"ev": "rhb", "h": b.Height, "rts": n.rhViews(bgCtx, st2(r), rtNames)})
 		ep, _, _ := beaconState.NewImmutableState(st2(r)).GetEpoch(bgCtx)
 		d.emit(map[string]any{"ev": "begin", "h": b.Height, "epoch": int64(ep), "slashed": len(b.Evidence) > 0, "state": proj})
 		for i, tx := range b.Txs {
@@ -667,8 +687,11 @@ func (d *cnDriver) observe(b *cnBlock, metas []cnTxMeta) cnBlockResult {
 			}
 			d.emit(evn)
 		}
-		eb := r.endBlock(b.Height)
+		ebr := r.mux.EndBlock(cmtabci.RequestEndBlock{Height: b.Height})
+		eb := ebr.ValidatorUpdates
 		res.ValUpd = valUpdStrings(eb)
+		d.lastRh = n.rhViews(bgCtx, st2(r), d.runtimeNames())
+		d.emit(map[string]any{"ev": "rh", "h": b.Height, "rts": d.lastRh, "disc_events": rhDiscrepancyEvents(n, ebr.Events)})
 		st, done = r.liveState()
 		proj, err = n.ledgerProjection(st)
 		done()
@@ -713,6 +736,8 @@ func consRun(args []string) int {
 	onDisk := fs.Bool("ondisk", true, "validator replicas keep their state on disk (enables restart paths)")
 	maxVals := fs.Int("maxvals", 3, "scheduler MaxValidators")
 	maxPerEntity := fs.Int("maxperentity", 1, "scheduler MaxValidatorsPerEntity")
+	maxGroup := fs.Int("maxgroup", 2, "largest primary committee size requested by runtime registrations")
+	noRounds := fs.Bool("norounds", false, "do not submit executor commitments")
 	tied := fs.Bool("tiedstake", false, "all validator entities start with the same escrow (ties at the validator-count cut-off)")
 	extraNodes := fs.Int("extranodes", 0, "additional validator nodes run by entity 0 (per-entity limit stays 1)")
 	sanity := fs.Bool("sanity", false, "register the in-tree supplementary sanity checker in the observer (it halts the chain on a failure; TLC is the oracle, so it is off by default)")
@@ -745,7 +770,7 @@ func consRun(args []string) int {
 		return 2
 	}
 	d := &cnDriver{net: net, valset: map[int]int64{}, rng: rand.New(rand.NewSource(*seed)), w: bufio.NewWriterSize(w, 1<<20),
-		paths: map[string]int{}, txKinds: map[string]int{}, nodeRts: map[string]string{}, pendRts: map[*cnTxSpec]string{}, rtOwner: map[string]string{}}
+		paths: map[string]int{}, txKinds: map[string]int{}, nodeRts: map[string]string{}, pendRts: map[*cnTxSpec]string{}, rtOwner: map[string]string{}, maxGroup: *maxGroup, noRounds: *noRounds}
 	defer d.w.Flush()
 	if *schedFile != "" {
 		raw, err := os.ReadFile(*schedFile)
